@@ -112,7 +112,16 @@ def c18_dialects(di: int, zp: int, d: int, h: int, mi: int, neg: bool) -> int:
     exp = reference(vals, neg, dialect)
     note("rendered", out)
     note("expected", exp)
-    return verdict(out == exp, "c18_dialects", di=di, zp=zp, d=d, h=h, mi=mi, neg=neg)
+    if not (out == exp):
+        return verdict(False, "c18_dialects", di=di, zp=zp, d=d, h=h, mi=mi, neg=neg)
+    # the same object under a dialect of the other template family, and again under the first one
+    other = Dialects.MYSQL if dialect not in QUOTE_EXPR_ONLY else Dialects.POSTGRESQL
+    out2 = iv.get_sql(ctx_for(other))
+    exp2 = reference(vals, neg, other)
+    note("rendered_other", out2)
+    note("expected_other", exp2)
+    ok = out2 == exp2 and iv.get_sql(ctx_for(dialect)) == exp
+    return verdict(ok, "c18_dialects", di=di, zp=zp, d=d, h=h, mi=mi, neg=neg)
 
 
 @harness(
